@@ -14,6 +14,10 @@ public key) and the real server stack.
  crafted    single crafted datagrams (CRC form / attacker key), including multi-message ones whose
             inner types differ from the header type, to an unknown address, a half-open connection
             and a key-less client: nobody is promoted, keyed or handed a message
+ histories  one pinned client that is never shown an honest hello lives through every sequence of three events from
+            {forged hello (original / fresh datagram / fresh datagram+message numbers), silence of 0.5 s, 2.5 s (> connect
+            timeout), 6 s (> drop rule)} while the application calls update() every frame and keeps trying to send:
+            after every frame unconnected with no key, and nothing handed to send() appears on the wire in clear
  schedules  every <=2-deviation schedule (drop/dup/delay) of the handshake
             datagrams of one and of two concurrently connecting clients, plus
             cross-delivery of hellos and challenge responses between sessions
@@ -709,6 +713,154 @@ def post_handshake_work(arg):
 
 
 # ---------------------------------------------------------------------------
+# part 2c: HISTORIES on one pinned client that is never shown an honest hello.  The parts above show every forged hello
+# ONCE to a client that waits for its answer and take the verdict a few frames later; here the client lives on: sequences
+# of <= 3 events from {a forged hello (with the original, a fresh datagram, or fresh datagram+message numbers), silence
+# of 0.5 s / 2.5 s (> connect timeout) / 6 s (> the 5 s drop rule)} while the application keeps calling update() every
+# frame and keeps trying to send.  After every frame: unconnected with no key (oracle (a)), connected()/status() of the
+# public API say so too, and no application byte handed to send() appears on the wire in clear.
+
+HIST_VARIANTS = (
+    "SH: pubkey=attacker salt=attacker token=this attacker-root-field, signed by the attacker",
+    "SH: genuine payload, signature with one bit flipped",
+    "SH: empty body",
+    "SH: pubkey=attacker salt=this token=this real-root-field, signed by the attacker",
+    "SH: attacker key/salt, signature field = empty list",
+)
+HIST_NUMBERING = ("original numbers", "fresh datagram number, repeated message number", "fresh datagram and message numbers")
+HIST_IDLE = (0.5, 2.5, 6.0)
+_HIST_FORGERS = None
+
+
+def hist_forgers():
+    global _HIST_FORGERS
+    if _HIST_FORGERS is None:
+        items, other = forgeries()
+        by = {label: fn for label, which, fn in items if which == SH}
+        _HIST_FORGERS = {label: by[label] for label in HIST_VARIANTS}     # KeyError = the families above were renamed
+    return _HIST_FORGERS
+
+
+def hist_histories(tier):
+    """every sequence of three events (its prefixes are judged on the way); the first hello of a history has nothing to
+    be fresh against, so in first position only the original numbering is used"""
+    variants = HIST_VARIANTS[:3] if tier == "quick" else HIST_VARIANTS
+    idles = [("idle", t) for t in HIST_IDLE]
+    first = [("hello", v, 0) for v in variants] + idles
+    later = [("hello", v, n) for v in variants for n in range(len(HIST_NUMBERING))] + idles
+    return [(a, b, c) for a in first for b in later for c in later]
+
+
+def hist_label(events):
+    return " -> ".join(("forged hello [%s; %s]" % (e[1][4:], HIST_NUMBERING[e[2]])) if e[0] == "hello" else ("%.1f s of silence" % e[1]) for e in events)
+
+
+def _ptype_name(v):
+    try:
+        return PacketType(v).name
+    except Exception:
+        return "%d" % v
+
+
+def run_history(events):
+    """returns (#frames, [(oracle, sig, message)], final client status)"""
+    forgers = hist_forgers()
+    mon = HandshakeMonitor()
+    w = World(root_index=ROOT, key_offset=KOFF, monitors=[mon])
+    found = []
+    try:
+        pinned = w.root_key.getPublicKey()
+        ce = w.clients[0]
+        # the honest hello is taken off the wire (it is the attacker's template); from then on the server is cut off
+        genuine = None
+        for _ in range(12):
+            w.tick()
+            for d in list(w.net):
+                if len(d.data) >= 20 and d.data[12] == SH and d.src == "s":
+                    genuine = d.data
+                    w.net.remove(d)
+            if genuine is not None:
+                break
+        if genuine is None:
+            return 0, [("harness", "history: the server never answered the client hello", "")], None
+        w.drop_rule = lambda w_, d: d.src == "s"
+        seq0, mseq0 = struct.unpack(">H", genuine[8:10])[0], struct.unpack(">H", genuine[20:22])[0]
+        fresh = [seq0, mseq0]
+        frames = [0]
+        secrets = []
+        scanned = [len(w.all_sent)]
+
+        def frame(what):
+            w.tick()
+            frames[0] += 1
+            n = len(mon.violations)
+            mon.check_clients(w, pinned)
+            for v in mon.violations[n:]:
+                found.append((v[0], v[1], "%s | %s" % (what, v[2])))
+            del mon.violations[n:]
+            c = ce.conn
+            if ce.client.connected() or ce.client.status() == ConnectionStatus.CONNECTED:
+                found.append(("client-auth", "a client that was only ever shown forged hellos reports connected() / status() CONNECTED",
+                              "%s | status=%s key=%r" % (what, ce.client.status(), c.session_key_bytes)))
+            for x in w.all_sent[scanned[0]:]:
+                if x.src == ce.name:
+                    for s in secrets:
+                        if s in x.data:
+                            found.append(("client-auth", "a client that was only ever shown forged hellos puts application data handed to send() on the wire in clear",
+                                          "%s | datagram of header type %s, %d bytes, carries %r; client key=%r" % (what, _ptype_name(x.data[12]), len(x.data), s, c.session_key_bytes)))
+            scanned[0] = len(w.all_sent)
+
+        for i, ev in enumerate(events):
+            what = "after event %d of: %s" % (i + 1, hist_label(events))
+            if ev[0] == "idle":
+                for _ in range(int(round(ev[1] / w.dt))):
+                    frame(what)
+            else:
+                data = forgers[ev[1]](genuine)
+                if ev[2] >= 1:
+                    fresh[0] += 1
+                    mseq = mseq0
+                    if ev[2] == 2:
+                        fresh[1] += 1
+                        mseq = fresh[1]
+                    data = rewrite_seq(data, fresh[0], mseq)
+                w.inject(ce.name, data)
+                for _ in range(4):
+                    frame(what)
+            # what the application does next, whatever it believes: try to send
+            s = b"password=hunter2/%d" % i
+            secrets.append(s)
+            try:
+                ce.client.send(s)
+            except Exception:
+                pass
+            for _ in range(3):
+                frame(what + ", then send()")
+        return frames[0], found, ce.conn.status.value
+    finally:
+        w.close()
+
+
+def history_work(chunk):
+    viols = {}
+    outcomes = core.Counter()
+    total = 0
+    frames = 0
+    for events in chunk:
+        total += 1
+        n, found, status = run_history(events)
+        frames += n
+        outcomes.inc("final client status %s" % status)
+        seen = set()
+        for oracle, sig, msg in found:
+            if (oracle, sig) in seen:
+                continue        # one count per history, not per frame
+            seen.add((oracle, sig))
+            viols.setdefault((oracle, sig), [0, {"part": "history", "events": [list(e) for e in events]}, msg])[0] += 1
+    return total, frames, dict(outcomes), viols
+
+
+# ---------------------------------------------------------------------------
 # part 3: schedules
 
 def scenario(params, ch):
@@ -831,6 +983,18 @@ def run(tier, seed):
     n_post = sum(r[0] for r in res)
     for r in res:
         fold(r[1])
+    hist = hist_histories(tier)
+    if seed:
+        k = seed % len(hist)
+        hist = hist[k:] + hist[:k]
+    res = core.pmap("checks.c02", "history_work", [hist[i::64] for i in range(64) if hist[i::64]])
+    n_hist = sum(r[0] for r in res)
+    n_hist_frames = sum(r[1] for r in res)
+    h_out = core.Counter()
+    for r in res:
+        for k, v in r[2].items():
+            h_out.inc(k, v)
+        fold(r[3])
     plist = [(1, None, o, l) for o, l in (("cs", 1), ("sc", 0), ("cs", 0), ("sc", 1))]
     plist += [(2, None, "cs", 1), (2, "SH", "cs", 1), (2, "CR", "cs", 1), (2, "CR-data", "cs", 1)]
     plist += [(1, "reconnect", "cs", 1), (1, "reconnect", "sc", 0)]
@@ -851,8 +1015,11 @@ def run(tier, seed):
         "states": st.points + n_bytes + n_forg, "transitions": st.steps + 14 * (n_bytes + n_forg), "traces_validated_against_impl": st.executions + n_bytes + n_forg,
         "byte_mutants": n_bytes, "byte_mutant_outcomes": dict(outcomes), "byte_mutants_still_connecting_both_ends": accepted,
         "forgeries": n_forg, "forgery_outcomes": dict(f_out), "post_handshake_injections": n_post, "crafted_single_datagrams": n_bundle, "crafted_outcomes": dict(b_out),
+        "forged_hello_histories": n_hist, "forged_hello_history_frames": n_hist_frames, "forged_hello_history_outcomes": dict(h_out),
+        "forged_hello_history_alphabet": {"hello_variants": len(HIST_VARIANTS[:3] if tier == "quick" else HIST_VARIANTS), "numberings": list(HIST_NUMBERING),
+                                          "silence_seconds": list(HIST_IDLE), "events_per_history": 3},
         "schedule_executions": st.executions, "schedule_by_deviations": st.by_cost, "schedule_configurations": len(plist), "schedule_capped": st.capped,
-        "evaluations": n_bytes + n_forg + n_post + n_bundle + st.executions, "distinct_nontrivial": len(outcomes) + len(f_out) + len(st.outcomes),
+        "evaluations": n_bytes + n_forg + n_post + n_bundle + n_hist + st.executions, "distinct_nontrivial": len(outcomes) + len(f_out) + len(st.outcomes),
         "rule": "one fresh real handshake per substitution; outcomes = (client status, client has key, server promoted, #connect events); "
                 "byte mutants that still complete the handshake only touch unsigned header bytes (oracle (a) holds for them)",
         "exhaustive": not st.capped,
@@ -880,6 +1047,14 @@ def replay(witness):
     if part == "post-handshake":
         total, viols = post_handshake_work(0)
         return [core.Violation(k[0], k[1], witness, v[2]) for k, v in viols.items()]
+    if part == "history":
+        n, found, status = run_history([tuple(e) for e in witness["events"]])
+        seen, out = set(), []
+        for o, s, m in found:
+            if (o, s) not in seen:
+                seen.add((o, s))
+                out.append(core.Violation(o, s, witness, m))
+        return out
     if part == "schedules":
         ch = explore.replay_choices(scenario, _tup(witness["params"]), witness["choices"])
         return [core.Violation(o, s, witness, m) for o, s, m in ch.found]
